@@ -13,7 +13,7 @@ use compio_log::{debug, instrument, trace};
 use compio_send_wrapper::SendWrapper;
 
 use crate::{
-    AtomicPtr, PanicResult, Shared, UnsafeCell,
+    AtomicPtr, AtomicUsize, PanicResult, Shared, UnsafeCell,
     console::{SpawnMeta, TaskSpan, WakerOp},
     queue::TaskId,
     task::{
@@ -60,6 +60,9 @@ struct Header {
     vtable: &'static TaskVtable,
     tracker: ManuallyDrop<SendWrapper<()>>,
     shared: AtomicPtr<Shared>,
+    /// Number of threads currently inside `Remote::schedule`. The `SCHEDULING` bit
+    /// of the state cannot tell one such thread from several.
+    schedulers: AtomicUsize,
     waker: UnsafeCell<MaybeUninit<Waker>>,
     /// Zero-sized unless the `console` feature is enabled.
     span: TaskSpan,
@@ -186,6 +189,7 @@ impl Task {
                 vtable: TaskAlloc::<F>::VTABLE,
                 tracker: ManuallyDrop::new(tracker),
                 shared: AtomicPtr::new(shared.as_ptr()),
+                schedulers: AtomicUsize::new(0),
                 waker: UnsafeCell::new(MaybeUninit::uninit()),
                 span: TaskSpan::new::<F>(meta),
             },
@@ -395,7 +399,11 @@ impl Task {
         // 2. Only external wakers (from other threads) might still be scheduling
         // 3. Those wakers will see the null pointer and return early
         // 4. We only need to wait for ones that already loaded the pointer
-        while header.state.load::<Strong>().is_scheduling() {
+        //
+        // This counts the schedulers instead of looking at the `SCHEDULING` bit: the
+        // bit is cleared by whichever scheduler finishes first, even if another one
+        // is still between loading the `Shared` pointer and its last use of it.
+        while header.schedulers.load(Acquire) != 0 {
             crate::hint::spin_loop();
         }
     }
